@@ -262,6 +262,15 @@ def _one(args):
                 if a is None or a[1] != tR[1]:
                     out.append(core.v("C07.c", (rk, "in-flight", "fills"), "update %d: in-flight order fills %s, undisturbed twin %s" % (u, a and a[1], tR[1]), case))
                     break
+            if rk == "replace":
+                # d) the replacement order is created by the request: its recorded creation time is the request's,
+                # never the (earlier) creation time of the order it replaces
+                repl = [x for x in o.trade.orders if x is not o]
+                for x in repl:
+                    counts["clause:C07.d"] += 1
+                    t_req_dt = _dt.datetime.utcfromtimestamp(t_req / 1e3)
+                    if x.date_time_created is None or x.date_time_created < t_req_dt or x.date_time_created > _dt.datetime.utcfromtimestamp(pts[j] / 1e3):
+                        out.append(core.v("C07.d", (rk, "timestamp", "replacement-created"), "replacement order created %s, replace requested %s, effective %s" % (x.date_time_created, t_req_dt, _dt.datetime.utcfromtimestamp(pts[j] / 1e3)), case))
             if rk in ("cancel", "replace") and j < len(h.snaps):
                 counts["clause:C07.b"] += 1
                 a = h.snaps[j].get(id(o))
